@@ -18,7 +18,8 @@ RULE = ("A value v is drawn from integers, dyadic fractions and generic decimals
         "(2) Labelling phase: predict_cluster_labels on a hand-built model with every beta form, JIT and interpreted. (3) End to "
         "end: ticc_labels with each form of lambda, beta and the covariance floor, same RNG seeds; every result field compared "
         "bitwise with the all-Python-float run. Non-trivial = at least 3 distinct forms compared and (for 1) NW>=2 with W>=2, so "
-        "that classes have different occurrence counts; distinct by SHA-1 of the case.")
+        "that classes have different occurrence counts; distinct by SHA-1 of the case."
+        ' A separate family uses NW 32..40 (matrices of >= 1024 entries) with weights float32 cannot hold.')
 ASSUMPTIONS = ["'same numeric value' is enforced: a form is used only if converting v to it and back is exact",
                "bitwise comparison is between executions inside the same process and environment"]
 
@@ -240,6 +241,21 @@ def e2e_case(draw):
     return cfg
 
 
+@st.composite
+def e2e_large_window_case(draw):
+    """Sparsity-weight forms on runs whose matrices are large (NW from 32 to 40, i.e. >= 1024 entries): size thresholds at which
+    a matrix-valued weight is treated differently from a scalar (packed, down-cast, sent to workers another way) live there."""
+    N, W = draw(st.sampled_from([(4, 8), (8, 4), (6, 6), (5, 7), (2, 16), (3, 11), (1, 33), (10, 4), (4, 10)]))
+    return {"front": draw(st.sampled_from(["single", "single", "joint"])), "N": N, "W": W, "K": 2,
+            "lengths": [draw(st.integers(W + 50, W + 90))] if True else None, "regimes": 2, "mean_spread": 2.0,
+            "data_seed": draw(st.integers(0, 2 ** 31 - 1)), "np_seed": draw(st.integers(0, 2 ** 31 - 1)),
+            "py_seed": draw(st.integers(0, 2 ** 31 - 1)), "beta": draw(st.sampled_from([1.0, 20.0])), "beta_form": "scalar",
+            "lam": 0.11, "lam_form": "scalar", "limit": draw(st.sampled_from([1, 2])), "m": 3, "biased": draw(st.booleans()),
+            "eps": 0, "num_processors": 1, "boundary_regime_flip": False,
+            "param": "lam", "v": draw(st.sampled_from([0.11, 0.3, 1.0 / 3.0, 0.011, 0.7])),
+            "form_pick": draw(st.integers(0, 10 ** 6)), "matrix_forms_only": True}
+
+
 def _digest(res):
     out = {}
     for f in dataclasses.fields(res):
@@ -262,6 +278,8 @@ def execute_e2e(case, t):
     if param == "lam":
         base["lam"] = v
         forms = scalar_forms(v)[1:] + matrix_forms(v, nw)
+        if case.get("matrix_forms_only"):
+            forms = matrix_forms(v, nw)
         key = "sparsity_weight"
     elif param == "beta":
         base["beta"] = v
@@ -302,6 +320,9 @@ SUBCHECKS = [
              budget={"quick": 120, "thorough": 6000}, shards={"quick": 2, "thorough": 8}, modes=["jit", "nojit"]),
     SubCheck(name="covariance_floor_forms", strategy=floor_case, execute=execute_floor,
              budget={"quick": 96, "thorough": 6000}, shards={"quick": 8, "thorough": 8}, modes=["jit"]),
+    SubCheck(name="end_to_end_forms_large_windows", strategy=e2e_large_window_case, execute=execute_e2e,
+             budget={"quick": 12, "thorough": 240}, shards={"quick": 3, "thorough": 16}, modes={"quick": ["jit"], "thorough": ["jit"]},
+             shrink={"quick": False, "thorough": False}),
     SubCheck(name="end_to_end_forms", strategy=e2e_case, execute=execute_e2e,
              budget={"quick": 64, "thorough": 2000}, shards={"quick": 16, "thorough": 8}, modes=E2E_MODES),
 ]
